@@ -1045,6 +1045,80 @@ def rejuvenate_family():
             fail("Rejuvenate: backward proposal density is not evaluated at arguments computed from the NEW trace", w=w, want=want)
 
 
+def hmc_family():
+    """C28: momenta (independent standard normals per selected leaf, of the leaf's shape), kinetic energy (sum over all
+    elements), alpha = H(start) - H(end) for scalar and vector leaves (L = 1, momenta recovered from the leapfrog equations),
+    and - only when replaying the recorded known finding - the L >= 2 trajectory against a textbook leapfrog"""
+    from genjax._src.inference.requests.hmc import HMC, assess_momenta, sample_momenta, selection_gradient
+    grads = {"a": jnp.zeros(()), "b": jnp.zeros(()), "v": jnp.zeros(3)}
+    draws = jax.vmap(lambda k: sample_momenta(k, grads)[0])(jrand.split(jrand.key(5), 3000))
+    flat = {"a": draws["a"], "b": draws["b"], "v0": draws["v"][:, 0], "v1": draws["v"][:, 1], "v2": draws["v"][:, 2]}
+    names = sorted(flat)
+    for i, x in enumerate(names):
+        if abs(float(jnp.mean(flat[x]))) > 0.08 or abs(float(jnp.var(flat[x])) - 1.0) > 0.12:
+            fail("sample_momenta: a momentum component is not a standard normal draw", leaf=x, mean=jnp.mean(flat[x]), var=jnp.var(flat[x]))
+        for y in names[i + 1:]:
+            c = float(jnp.corrcoef(flat[x], flat[y])[0, 1])
+            if abs(c) > 0.08:
+                fail("sample_momenta: two momentum components are not independent", a=x, b=y, corr=c)
+    m, s = sample_momenta(jrand.key(1), grads)
+    want = -0.5 * (m["a"] ** 2 + m["b"] ** 2 + jnp.sum(m["v"] ** 2)) - 5 * 0.5 * jnp.log(2 * jnp.pi)
+    if not close(s, want) or not close(assess_momenta(m, mul=-1.0), want):
+        fail("assess_momenta: not the summed standard-normal log-density of all momentum components", got=s, want=want)
+
+    @gen
+    def vec_model():
+        z = genjax.mv_normal_diag(jnp.zeros(4), jnp.array([1.0, 0.5, 2.0, 1.5])) @ "z"
+        y = normal(jnp.sum(z * z), 1.0) @ "y"
+        return z
+
+    @gen
+    def two_scalars():
+        a = normal(0.0, 1.0) @ "a"
+        b = normal(a * a, 0.7) @ "b"
+        return a + b
+    eps = jnp.array(0.05)
+    cases = [("vector leaf", vec_model, S.at["z"], lambda t: t.get_choices()["z"], lambda t, q: C.kw(z=q, y=t.get_choices()["y"])),
+             ("two scalar leaves", two_scalars, S.at["a"] | S.at["b"], lambda t: jnp.stack([t.get_choices()["a"], t.get_choices()["b"]]),
+              lambda t, q: C.kw(a=q[0], b=q[1]))]
+    for name, model, sel, read, build in cases:
+        tr = model.simulate(jrand.key(2), ())
+        logp = lambda q: model.assess(build(tr, q), ())[0]
+        q0 = read(tr)
+        g0 = jax.grad(logp)(q0)
+        for k in range(4):
+            new, alpha, _, _ = HMC(sel, eps, 1).edit(jrand.key(10 + k), tr, Diff.no_change(()))
+            q1 = read(new)
+            ph = (q1 - q0) / eps
+            p0, p1 = ph - (eps / 2) * g0, ph + (eps / 2) * jax.grad(logp)(q1)
+            want = logp(q1) - logp(q0) - 0.5 * jnp.sum(p1 ** 2) + 0.5 * jnp.sum(p0 ** 2)
+            if not close(alpha, want, tol=2e-3):
+                fail("HMC: the returned weight is not H(start) - H(end)", case=name, alpha=alpha, want=want)
+            wf(new, f"HMC.edit[{name}]")
+    if "carried_gradient" in OB or "one_leapfrog_step" in OB:          # the recorded known finding (L >= 2)
+        @gen
+        def nl():
+            x = normal(0.0, 1.0) @ "x"
+            _ = normal(x * x, 0.5) @ "y"
+            return x
+        key = jrand.key(3)
+        tr, _ = nl.importance(key, C.kw(x=jnp.array(0.8), y=jnp.array(1.0)), ())
+        e, L = 0.1, 3
+        new, _, _, _ = HMC(S.at["x"], jnp.array(e), L).edit(key, tr, Diff.no_change(()))
+        lp = lambda x: nl.assess(C.kw(x=x, y=jnp.array(1.0)), ())[0]
+        k, sub = jrand.split(key)
+        _, g0 = selection_gradient(S.at["x"], tr, Diff.no_change(()))
+        p = sample_momenta(sub, g0)[0]["x"]
+        q = jnp.array(0.8)
+        for _ in range(L):
+            p = p + e / 2 * jax.grad(lp)(q)
+            q = q + e * p
+            p = p + e / 2 * jax.grad(lp)(q)
+        if not close(new.get_choices()["x"], q, tol=1e-5):
+            fail("HMC.edit with L = 3 does not follow the leapfrog trajectory (stale gradient in the first half-kick)",
+                 got=new.get_choices()["x"], leapfrog=q)
+
+
 def pytree_family():
     """C21 (Pytree part): Const / Closure / tree_const on the real classes, flatten/unflatten, jit and vmap round trips of the
     repository's Pytree dataclasses, static fields absent from the leaves"""
@@ -1182,7 +1256,7 @@ def selection_family():
 
 FAMILIES = [
     (("C19.Mask.", "Mask._or_idx"), mask_algebra_family), (("C18.",), selection_family), ((".Diff.",), diff_family),
-    (("C20.", "FlagOp", "multi_switch", "tree_choose"), staging_family), (("C33.",), invalid_subset_family),
+    (("C28.", "sample_momenta"), hmc_family), (("C20.", "FlagOp", "multi_switch", "tree_choose"), staging_family), (("C33.",), invalid_subset_family),
     (("C09.", "incremental"), incremental_family), (("C04.",), key_family), (("C21.",), pytree_family), (("C25.", "Marginal"), marginal_family), (("C27.", "Rejuvenate"), rejuvenate_family), (("C31.",), time_travel_family), (("C17.",), choice_map_family), (("C26.",), smc_family),
     (("MaskCombinator", "MaskTrace"), mask_family), (("Distribution", "ExactDensity", "C24."), distribution_family),
     (("Dimap",), dimap_family), (("Switch",), switch_family), (("Vmap", "repeat"), vmap_family),
